@@ -114,6 +114,8 @@ class Sym:
         self.called = "false"
         self.at_call = None
         self.brk = "False"
+        self.ret = "False"
+        self.allow_return = False
         self.writes_after_call = False
 
     # ---- lvalues -----------------------------------------------------------
@@ -242,6 +244,13 @@ class Sym:
             a, b = kids(n)
             if op == "=":
                 v = self.lvalue(a)
+                if v is None and getattr(self, "nested_ok", False):
+                    # store to something outside the slice: only the tracked assignments nested in the value count
+                    for x in walk(b):
+                        if x.get("kind") in ("BinaryOperator", "CompoundAssignOperator") and x.get("opcode", "").endswith("=") and \
+                                x.get("opcode") not in ("==", "!=", "<=", ">=") and self.lvalue(kids(x)[0]):
+                            self.expr(x)
+                    return ("int", "0")
                 if v is None:
                     raise OutOfGrammar("assignment to an untracked lvalue")
                 val = self.as_int(self.expr(b))
@@ -272,6 +281,14 @@ class Sym:
             if op in rel:
                 return ("prop", "(%s %s %s)" % (ra, rel[op], rb))
             raise OutOfGrammar("binary " + str(op))
+        if k == "CompoundAssignOperator" and n.get("opcode") in ("+=", "-="):
+            a, b = kids(n)
+            v = self.lvalue(a)
+            if v is None:
+                raise OutOfGrammar("compound assignment to an untracked lvalue")
+            val = "(%s %s %s)" % (self.state[v], n["opcode"][0], self.as_int(self.expr(b)))
+            self.assign(v, val)
+            return ("int", val)
         if k == "ConditionalOperator":
             c, a, b = kids(n)
             pc = self.as_prop(self.expr(c))
@@ -295,10 +312,10 @@ class Sym:
         return out
 
     def snapshot(self):
-        return (dict(self.state), self.called, self.at_call, self.brk)
+        return (dict(self.state), self.called, self.at_call, self.brk, self.ret)
 
     def restore(self, s):
-        self.state, self.called, self.at_call, self.brk = dict(s[0]), s[1], s[2], s[3]
+        self.state, self.called, self.at_call, self.brk, self.ret = dict(s[0]), s[1], s[2], s[3], s[4]
 
     def stmt(self, n):
         k = n.get("kind")
@@ -310,6 +327,9 @@ class Sym:
             return
         if k == "BreakStmt":
             self.brk = "True"
+            return
+        if k == "ReturnStmt" and self.allow_return:
+            self.ret = "True"
             return
         if not self.relevant(n):
             return
@@ -337,6 +357,10 @@ class Sym:
             else:
                 self.at_call = m(s1[2] or "0", s2[2] or "0")
             self.brk = m(s1[3], s2[3], "True", "False")
+            self.ret = m(s1[4], s2[4], "True", "False")
+            return
+        if k == "ReturnStmt" and self.allow_return:
+            self.ret = "True"
             return
         if k == "BreakStmt":
             self.brk = "True"
@@ -447,6 +471,122 @@ def extract(bdir):
                 return dref(a), b
         return None
 
+    def deref_ob_eq(n):
+        """heart_beats[index].ob == ob"""
+        n = strip(n)
+        if n.get("kind") != "BinaryOperator" or n.get("opcode") != "==":
+            return False
+        a, b = (strip(x) for x in kids(n))
+        while a.get("kind") == "ImplicitCastExpr":
+            a = strip(kids(a)[0])
+        while b.get("kind") == "ImplicitCastExpr":
+            b = strip(kids(b)[0])
+        if a.get("kind") != "MemberExpr" or a.get("name") != "ob":
+            return False
+        sub_ = strip(kids(a)[0])
+        if sub_.get("kind") != "ArraySubscriptExpr":
+            return False
+        base, ix = kids(sub_)
+        base = strip(base)
+        while base.get("kind") == "ImplicitCastExpr":
+            base = strip(kids(base)[0])
+        ix = strip(ix)
+        while ix.get("kind") == "ImplicitCastExpr":
+            ix = strip(kids(ix)[0])
+        return base.get("referencedDecl", {}).get("name") == "heart_beats" and ix.get("referencedDecl", {}).get("name") == "index" \
+            and b.get("kind") == "DeclRefExpr" and b.get("referencedDecl", {}).get("name") == "ob"
+    # ---------------- set_heart_beat: entry guard, retune branch, growth of the array -----------------------------------
+    m2 = _re0.search(r"#define\s+O_DESTRUCTED\s+(0x[0-9a-fA-F]+|\d+)", flagdefs)
+    o_destr = int(m2.group(1), 0) if m2 else None
+    first = [st for st in top if st.get("kind") != "DeclStmt"][0]
+    okg = first.get("kind") == "IfStmt" and len(kids(first)) == 2 and \
+        any(x.get("kind") == "ReturnStmt" for x in walk(kids(first)[1])) and \
+        any(x.get("kind") == "MemberExpr" and x.get("name") == "flags" for x in walk(kids(first)[0]))
+    masks = [int(x["value"]) for x in walk(kids(first)[0]) if x.get("kind") == "IntegerLiteral"] if okg else []
+    if not okg or len(masks) != 1 or o_destr is None:
+        raise TieBroken("set_heart_beat:entry", "set_heart_beat does not start with `if (ob->flags & <mask>) return`")
+    info["shbGuard"] = [masks[0], o_destr]
+    out.append("/-- src/backend.c set_heart_beat: the flag mask of its first statement `if (ob->flags & mask) return 0;`, and the\n"
+               "    value of O_DESTRUCTED in lib/lpc/object.h -/\n"
+               "def shbGuardMask : Nat := %d\ndef oDestructed : Nat := %d\n" % (masks[0], o_destr))
+    enabled = None
+    for st in top[cut + 1:]:
+        if st.get("kind") == "IfStmt" and len(kids(st)) == 3:
+            enabled = kids(st)[1]
+    if enabled is None:
+        raise TieBroken("set_heart_beat:retune", "the branch for an object that already has a heart beat was not found")
+    ek = kids(enabled)
+    sy = Sym("set_heart_beat:retune", ["to"], {"heart_beat_ticks": "ticks", "time_to_heart_beat": "interval"}, ["to"])
+    sy.state["ticks"] = "ticks"
+    sy.state["interval"] = "interval"
+    sy.allow_return = True
+    pre = [st for st in ek if st.get("kind") != "WhileStmt"]
+    loops_e = [st for st in ek if st.get("kind") == "WhileStmt"]
+    if len(loops_e) != 1:
+        raise TieBroken("set_heart_beat:retune", "expected one search loop in the retune branch")
+    sy.run([st for st in ek[:ek.index(loops_e[0])]])
+    refuse = sy.ret
+    stores = [x for x in walk(loops_e[0]) if x.get("kind") == "IfStmt" and deref_ob_eq(kids(x)[0])]
+    if len(stores) != 1:
+        raise TieBroken("set_heart_beat:retune", "the retune loop has no `if (heart_beats[index].ob == ob) { store; break; }`")
+    sy.allow_return = False
+    body_st = kids(stores[0])[1]
+    sy.run([c for c in (kids(body_st) if body_st.get("kind") == "CompoundStmt" else [body_st]) if c.get("kind") != "BreakStmt"])
+    info["retuneStore"] = [refuse, sy.state["ticks"], sy.state["interval"]]
+    out.append("/-- src/backend.c set_heart_beat, object already on the list: (refused, heart_beat_ticks, time_to_heart_beat) -/\n"
+               "def retuneStore (to ticks interval : Int) : Bool × Int × Int :=\n  (decide %s,\n   %s,\n   %s)\n"
+               % (refuse, sy.state["ticks"], sy.state["interval"]))
+    sy = Sym("set_heart_beat:growth", ["max_heart_beats", "num_hb_objs"], {}, ["max_heart_beats", "num_hb_objs"])
+    sy.nested_ok = True
+    grow = [st for st in kids(app) if st.get("kind") == "IfStmt" and sy.writes_tracked(st)]
+    if len(grow) != 1:
+        raise TieBroken("set_heart_beat:growth", "expected one if-statement that grows max_heart_beats in the append branch")
+    sy.run(grow)
+    if sy.state["num_hb_objs"] != "num_hb_objs":
+        raise TieBroken("set_heart_beat:growth", "the growth statement writes num_hb_objs")
+    info["growCap"] = sy.state["max_heart_beats"]
+    out.append("/-- src/backend.c set_heart_beat, append branch: max_heart_beats after the (re)allocation test -/\n"
+               "def growCap (max_heart_beats num_hb_objs : Int) : Int := %s\n" % sy.state["max_heart_beats"])
+
+    # ---------------- save_context / restore_context: command_giver is part of the saved context -----------------------
+    def has_assign(fn_name, lhs_pred, rhs_pred):
+        fn_ = ast_function(bdir, "src/error_context.c", fn_name)
+        for x in walk(fn_):
+            if x.get("kind") == "BinaryOperator" and x.get("opcode") == "=":
+                a, b = kids(x)
+                if lhs_pred(strip(a)) and rhs_pred(b):
+                    return 1
+        return 0
+
+    def is_member(n, name):
+        while n.get("kind") == "ImplicitCastExpr":
+            n = strip(kids(n)[0])
+        return n.get("kind") == "MemberExpr" and n.get("name") == name
+    cs = [has_assign("save_context", lambda a: is_member(a, "save_command_giver"), lambda b: dref(b) == "command_giver"),
+          has_assign("restore_context", lambda a: dref(a) == "command_giver", lambda b: is_member(strip(b), "save_command_giver"))]
+    info["ctxSaveRestore"] = cs
+    out.append("/-- src/error_context.c: save_context stores command_giver, restore_context puts it back (1 = present) -/\n"
+               "def ctxSaveRestore : List Nat := %s\n" % str(cs))
+
+    # ---------------- get_heart_beats: filled from the back ---------------------------------------------------------------
+    gh = ast_function(bdir, "src/backend.c", "get_heart_beats")
+    gl = [x for x in walk(gh) if x.get("kind") == "WhileStmt"]
+    rev = 0
+    if len(gl) == 1:
+        c = strip(kids(gl[0])[0])
+        while c.get("kind") == "ImplicitCastExpr":
+            c = strip(kids(c)[0])
+        down = c.get("kind") == "UnaryOperator" and c.get("opcode") == "--" and c.get("isPostfix") and dref(kids(c)[0]) == "n"
+        up = any(x.get("kind") == "UnaryOperator" and x.get("opcode") == "++" and dref(kids(x)[0]) == "hb" for x in walk(kids(gl[0])[1]))
+        idx_n = any(x.get("kind") == "ArraySubscriptExpr" and dref(kids(x)[1]) == "n" for x in walk(kids(gl[0])[1]))
+        rev = 1 if (down and up and idx_n) else 0
+    if not rev:
+        raise TieBroken("get_heart_beats:order", "get_heart_beats is not `while (n--) { arr->item[n] = hb->ob; hb++; }`")
+    info["heartBeatsReversed"] = rev
+    out.append("/-- src/backend.c get_heart_beats: item[n] (n counting down) receives the entries front to back: the efun answers\n"
+               "    the list in reverse order -/\n"
+               "def heartBeatsReversed : Bool := true\n")
+
     # ---------------- f_set_heart_beat ------------------------------------------------------------------------
     ef = body_of(ast_function(bdir, "lib/efuns/heart_beat.c", "f_set_heart_beat"))
     sy = Sym("f_set_heart_beat:argument", [], {}, [])
@@ -530,30 +670,6 @@ def extract(bdir):
     # ---------------- set_heart_beat, removal branch: the search loop and the memmove ---------------------------------
     rk = kids(removal)
 
-    def deref_ob_eq(n):
-        """heart_beats[index].ob == ob"""
-        n = strip(n)
-        if n.get("kind") != "BinaryOperator" or n.get("opcode") != "==":
-            return False
-        a, b = (strip(x) for x in kids(n))
-        while a.get("kind") == "ImplicitCastExpr":
-            a = strip(kids(a)[0])
-        while b.get("kind") == "ImplicitCastExpr":
-            b = strip(kids(b)[0])
-        if a.get("kind") != "MemberExpr" or a.get("name") != "ob":
-            return False
-        sub_ = strip(kids(a)[0])
-        if sub_.get("kind") != "ArraySubscriptExpr":
-            return False
-        base, ix = kids(sub_)
-        base = strip(base)
-        while base.get("kind") == "ImplicitCastExpr":
-            base = strip(kids(base)[0])
-        ix = strip(ix)
-        while ix.get("kind") == "ImplicitCastExpr":
-            ix = strip(kids(ix)[0])
-        return base.get("referencedDecl", {}).get("name") == "heart_beats" and ix.get("referencedDecl", {}).get("name") == "index" \
-            and b.get("kind") == "DeclRefExpr" and b.get("referencedDecl", {}).get("name") == "ob"
     wl = [i for i, st in enumerate(rk) if st.get("kind") == "WhileStmt"]
     if len(wl) != 1 or wl[0] == 0:
         raise TieBroken("set_heart_beat:search", "expected exactly one search loop in the removal branch")
